@@ -115,15 +115,22 @@ def model_check(tier, scans=False):
             # the largest trees are left to the thorough tier
             scs = [s for s in scs if len(s.init) <= 17 and sum(len(p) for p in s.progs) <= 4]
 
+    # the three-thread scenarios have 10^6 states, the others 10^2..10^4 (JVM start dominates): big ones first
+    # and with more TLC workers
+    def big(sc):
+        return len(sc.progs) >= 3 or sum(len(p) for p in sc.progs) >= 5
+    scs = sorted(scs, key=lambda sc: 0 if big(sc) else 1)
+
     def work(sc):
+        w = 7 if big(sc) else 1
         mod, d = gen(sc.name, sc.init, sc.progs, qeach=(sc.q == "each"), max_extra=4 + 3 * sum(len(p) for p in sc.progs))
-        r = vlib.tlc(mod, mod + ".cfg", spec_dir=d, workers=2, timeout=3000, xmx="3g")
+        r = vlib.tlc(mod, mod + ".cfg", spec_dir=d, workers=w, timeout=3000, xmx="3g")
         if r.error:     # a JVM that failed to start under load: one retry
-            r = vlib.tlc(mod, mod + ".cfg", spec_dir=d, workers=2, timeout=3000, xmx="3g")
+            r = vlib.tlc(mod, mod + ".cfg", spec_dir=d, workers=w, timeout=3000, xmx="3g")
         return sc.name, r
     gen_n = dist = 0
     names = []
-    for name, r in vlib.parallel_map(work, scs, workers=8):
+    for name, r in vlib.parallel_map(work, scs, workers=10):
         if r.error:
             raise vlib.CheckBroken("OlcArt %s: %s" % (name, r.error[-1500:]))
         if r.violation:
@@ -132,6 +139,35 @@ def model_check(tier, scans=False):
         dist += r.distinct
         names.append(name)
     return gen_n, dist, names
+
+
+def model_check_cached(tier, scans=False):
+    """model_check + killers depend on the specification and the scenario catalogue only (not on the code under
+    test): the sibling checks C03/C04/C14 share one TLC run per (spec, catalogue, tier); returns
+    ((generated, distinct, names, killers), reused)"""
+    import hashlib
+    h = hashlib.sha1()
+    for f in (os.path.join(vlib.SPEC, "OlcArt.tla"), os.path.join(vlib.SPEC, "OlcArtIter.tla"),
+              os.path.join(vlib.VERIF, "tools", "olcart.py"), os.path.join(vlib.VERIF, "tools", "olcart_scen.py"),
+              os.path.join(vlib.VERIF, "tools", "scenarios.py")):
+        with open(f, "rb") as fh:
+            h.update(fh.read())
+    h.update(("%s %s" % (tier, scans)).encode())
+    path = os.path.join(vlib.CACHE, "olcart_mc_%s.json" % h.hexdigest()[:16])
+    if os.path.exists(path):
+        try:
+            with open(path) as f:
+                c = json.load(f)
+            return (c["generated"], c["distinct"], c["names"], c["killers"]), True
+        except (ValueError, KeyError):
+            pass
+    gen_n, dist, names = model_check(tier, scans)
+    kill = killers()
+    tmp = path + ".tmp%d" % os.getpid()
+    with open(tmp, "w") as f:
+        json.dump({"generated": gen_n, "distinct": dist, "names": names, "killers": kill}, f)
+    os.replace(tmp, path)
+    return (gen_n, dist, names, kill), False
 
 
 _RE_STATE = re.compile(r"^State \d+: .*?$\n((?:^(?:/\\|  |   ).*$\n?)+)", re.M)
@@ -297,3 +333,243 @@ def signature_conformance(exe, d):
             if m != r:
                 mism.append("%s op %d (%s): model %s, code %s" % (name, i + 1, tok, m, r))
     return n, mism
+
+
+# ---------------------------------------------------------------- behaviour replay (spec -> code)
+# Behaviours of the *contended* model (edge cover of the complete interleaving graph of a small
+# scenario, reduced to the paths that traverse every per-thread pc transition -- hence every failing
+# check/CAS, spin and restart branch -- in every distinct lock context) are executed on the real olc_db:
+# the thread order is forced step by step and the kind of every scheduling point the code reaches
+# (OLC_SIGLOG) as well as every returned result is compared with the model's prediction.  A
+# divergence is a difference of step structure (DESIGN 2.6 rule 2): it is reported, and the
+# recorded execution is judged by OlcTrace like any other.
+REPLAY_SCENARIOS = {}     # {"only": [names]} restricts the replay (debugging)
+
+
+def _pc_of_label(lab):
+    return "unw" if lab == "UnwindStep" else lab.lower()
+
+
+_RE_PC = re.compile(r'pc \|-> "(\w+)"')
+_pcs_cache = {}
+
+
+def _pcs(g, sid):
+    """per-thread pcs of a state, from its raw text (no full parse)"""
+    k = (id(g), sid)
+    v = _pcs_cache.get(k)
+    if v is None:
+        v = _RE_PC.findall(g.states[sid])
+        _pcs_cache[k] = v
+    return v
+
+
+def _actor(g, edge):
+    """(thread 1-based, pc before the step) of an edge of the dumped graph, or None for an environment step
+    (Free, final stuttering).  Actions of OlcArtIter itself are labelled with their name and thread; the steps
+    OlcArtIter inherits from OlcArt appear as 'NextI' (a conjunction with the ghost update) and are resolved from
+    the two states."""
+    a, lab, args, b = edge
+    if lab in ("Free", "Next"):
+        return None
+    if lab != "NextI" and args:
+        return args[0], ("idle" if lab == "Call" else _pc_of_label(lab))
+    pa, pb = _pcs(g, a), _pcs(g, b)
+    diff = [t for t in range(len(pa)) if pa[t] != pb[t]]
+    if len(diff) == 1:
+        return diff[0] + 1, pa[diff[0]]
+    sa, sb = g.state(a)["th"], g.state(b)["th"]
+    who = [t for t in range(len(sa)) if sa[t] != sb[t]]
+    if not who:
+        return None
+    return who[0] + 1, sa[who[0]]["pc"]
+
+
+def model_steps(g, path):
+    """-> ([(thread 1-based, hook kind, pc)], {thread: [result,...]}) of a model behaviour given as a path of the
+    dumped graph.  States are parsed only where a result is read: before a later Call of the same thread and at
+    the end of the path."""
+    steps = []
+    started = set()
+    ret_states = []     # (thread, state id): the thread's previous operation has returned in that state
+    for e in path:
+        act = _actor(g, e)
+        if act is None:
+            continue
+        t, pc = act
+        if pc == "idle":
+            if t in started:
+                ret_states.append((t, e[0]))
+                continue
+            started.add(t)
+            steps.append((t, "START", "idle"))
+            continue
+        steps.append((t, hook_of(pc), pc))
+    results = {}
+    last = g.state(path[-1][3]) if path else None
+
+    def res_of(st, t):
+        r = st["th"][t - 1]
+        if r["op"] == "scan":
+            return [(int.from_bytes(bytes(k), "big"), v) for (k, v) in st["it"][t - 1]["seen"]]
+        return r["res"]
+    for t, sid in ret_states:
+        results.setdefault(t, []).append(res_of(g.state(sid), t))
+    if last is not None:
+        for t in range(1, len(last["th"]) + 1):
+            if last["th"][t - 1]["pc"] in ("idle", "done") and last["th"][t - 1]["i"] > len(results.get(t, [])):
+                results.setdefault(t, []).append(res_of(last, t))
+    return steps, results
+
+
+def _select_paths(g, paths, K):
+    """paths needed to traverse every class (acting thread, its pc, its next pc -- hence every failing check/CAS,
+    spin and restart branch -- and the pc of every other thread) K times"""
+    classes = {}
+    kept = []
+    for p in paths:
+        keep = False
+        for e in p:
+            act = _actor(g, e)
+            if act is None:
+                continue
+            t, pc = act
+            pa, pb = _pcs(g, e[0]), _pcs(g, e[3])
+            c = (t, pc, pb[t - 1], tuple(x for u, x in enumerate(pa) if u != t - 1))
+            k = classes.get(c, 0)
+            if k < K:
+                keep = True
+            classes[c] = k + 1
+        if keep:
+            kept.append(p)
+    return kept, len(classes)
+
+
+def _beh_work(arg):
+    sc, exe, d, K, max_paths = arg
+    name = sc.name
+    mod, gd = gen("beh_" + name, sc.init, sc.progs, qeach=(sc.q == "each"),
+                  max_extra=4 + 3 * sum(len(p) for p in sc.progs), max_version=12, keep_seen=True)
+    dump = os.path.join(gd, mod + "_graph")
+    r = vlib.tlc(mod, mod + ".cfg", spec_dir=gd, workers=1, timeout=1500, xmx="2g", dump=dump)
+    if r.error or r.violation:
+        raise vlib.CheckBroken("OlcArt behaviour graph %s: %s" % (name, r.error or r.violation))
+    g = tlaparse.load_dot(dump + ".dot")
+    os.unlink(dump + ".dot")
+    paths = tlaparse.edge_cover(g)
+    kept, ncls = _select_paths(g, paths, K)
+    if len(kept) > max_paths:
+        kept = kept[:: (len(kept) + max_paths - 1) // max_paths]
+    preds = []
+    sf = os.path.join(d, "beh_%s.sched" % name)
+    with open(sf, "w") as f:
+        for p in kept:
+            steps, results = model_steps(g, p)
+            preds.append((steps, results))
+            f.write("%s;%d\n" % (schedule_of([s[0] for s in steps]), len(steps)))
+    scf = os.path.join(d, "beh_%s.txt" % name)
+    with open(scf, "w") as f:
+        f.write(sc.text() + "\n")
+    evf = os.path.join(d, "beh_%s.ndjson" % name)
+    p = subprocess.run([exe, "--scenarios", scf, "--events", evf, "--sched-file", sf, "--keep-all"],
+                       capture_output=True, text=True, timeout=1500, env=dict(os.environ, OLC_SIGLOG="1"))
+    if p.returncode != 0:
+        raise vlib.CheckBroken("olc_driver (behaviour replay) failed on %s: %s" % (name, p.stderr[-500:]))
+    # compare
+    lock_step = res_agree = res_cmp = 0
+    diverged = []
+    execs = []
+    with open(evf) as f:
+        for ln in f:
+            if ln.startswith('{"e":"reset"'):
+                execs.append([])
+            if execs:
+                execs[-1].append(ln)
+    clean = evf[:-7] + ".hist.ndjson"
+    seen_hist = set()
+    n_hist = 0
+    with open(clean, "w") as out:
+        for (steps, results), ex in zip(preds, execs):
+            real = []
+            rets = {}
+            visits = {}
+            hist = []
+            for ln in ex:
+                e = json.loads(ln)
+                if e["e"] == "step":
+                    k = e["k"]
+                    real.append((e["t"], "F" if k in ("F_LOAD", "F_STORE") else k))
+                    continue
+                hist.append(ln)
+                if e["e"] == "ret":
+                    rets.setdefault(e["t"], []).append(e)
+                elif e["e"] == "scall":
+                    visits[e["t"]] = []
+                elif e["e"] == "visit":
+                    visits[e["t"]].append((e["k"], e["v"]))
+                elif e["e"] == "sret":
+                    rets.setdefault(e["t"], []).append(visits.pop(e["t"]))
+            # identical histories (the schedule in the header aside) are judged once by OlcTrace
+            hkey = hash("".join(hist[1:]))
+            if hkey not in seen_hist:
+                seen_hist.add(hkey)
+                n_hist += 1
+                out.writelines(hist)
+            want = [(t, k) for (t, k, pc) in steps]
+            got = real[:len(want)]
+            if got == want:
+                lock_step += 1
+                # results of the operations that returned inside the replayed prefix
+                for t, rs in results.items():
+                    for i, mres in enumerate(rs):
+                        if i >= len(rets.get(t, [])):
+                            continue
+                        e = rets[t][i]
+                        res_cmp += 1
+                        if isinstance(mres, list) or isinstance(e, list):
+                            ok = mres == e
+                        else:
+                            mbool = mres not in (-1, -2)
+                            ok = (e["r"] == mbool) and (mres <= 0 or e.get("v", mres) == mres)
+                        res_agree += ok
+                        if not ok and len(diverged) < 5:
+                            diverged.append("%s: result of thread %d op %d: model %s, code %s" % (name, t, i + 1, mres, e))
+            elif len(diverged) < 5:
+                i = next((j for j in range(min(len(got), len(want))) if got[j] != want[j]), min(len(got), len(want)))
+                diverged.append("%s: step %d: model %s (pc %s), code %s" % (
+                    name, i + 1, want[i] if i < len(want) else None, steps[i][2] if i < len(steps) else None,
+                    got[i] if i < len(got) else None))
+    os.unlink(evf)
+    return dict(scenario=name, states=len(g.states), edges=g.nedges, cover_paths=len(paths), classes=ncls,
+                replayed=len(execs), distinct_histories=n_hist, lock_step=lock_step, results_compared=res_cmp, results_agree=res_agree,
+                divergences=diverged, tlc_generated=r.generated, tlc_distinct=r.distinct), clean
+
+
+
+def behaviour_replay(exe, d, tier, max_paths=1200, scans=False):
+    """-> (coverage dict, [event files to be judged by OlcTrace])"""
+    cat = {s.name: s for s in (scenarios.scan_scenarios("thorough") if scans else scenarios.point_scenarios("thorough"))}
+    names = REPLAY_SCENARIOS.get("only") or [
+        s.name for s in cat.values() if usable(s, scans) and len(s.init) <= (6 if scans else 17)
+        and (len(s.progs) == 2 and sum(len(p) for p in s.progs) <= (3 if tier == "quick" else 4))]
+    if scans and tier == "quick" and "only" not in REPLAY_SCENARIOS:
+        # the largest graphs (collapse under every scan kind) are left to the thorough tier except for scan()
+        names = [n for n in names if "_vs_collapse" not in n or n.startswith("scan_sf_") or n.startswith("scan_sr_")]
+    K = 2 if tier == "quick" else 1000000
+    if tier != "quick":
+        max_paths = 40000
+    prepare()
+    import concurrent.futures as cf
+    # state parsing is pure Python: processes, not threads
+    with cf.ProcessPoolExecutor(max_workers=vlib.NCPU) as ex:
+        res = list(ex.map(_beh_work, [(cat[n], exe, d, K, max_paths) for n in names]))
+    per = [r[0] for r in res]
+    files = [r[1] for r in res]
+    tot = {k: sum(s[k] for s in per) for k in ("states", "edges", "cover_paths", "replayed", "distinct_histories", "lock_step", "results_compared",
+                                               "results_agree", "tlc_generated", "tlc_distinct")}
+    tot["per_scenario"] = per
+    tot["rule"] = ("edge cover of the complete interleaving graph of OlcArt per scenario (lock versions <= 12), reduced to the paths "
+                   "that traverse every (thread, pc, next pc, other threads' pcs) class twice; each path is forced on the real "
+                   "olc_db step by step; kinds of scheduling points and results compared; divergence = step-structure "
+                   "difference (reported, not judged)")
+    return tot, files
